@@ -7,6 +7,8 @@ import TantivyModel.Proofs.CursorSeek
 import TantivyModel.Proofs.Positions
 import TantivyModel.Proofs.TermInfoStore
 import TantivyModel.Proofs.BitPacker4x
+import TantivyModel.Proofs.BlockCursor
+import TantivyModel.Proofs.Pipeline
 /-!
 # C07 — The inverted index records exactly the terms, documents, frequencies, positions
 
@@ -171,6 +173,60 @@ theorem C07_positions_addressing_concrete (perDoc : List (List Nat)) (i : Nat) (
       (((perDoc.take i).map List.length).sum) (perDoc.getD i []).length = some (perDoc.getD i []) :=
   C07_positions_addressing cfg (by decide) (by decide) C07_bp4x_good perDoc i hi
 
+/-! ### the indexing pipeline -/
+
+/-- **recorders ∘ serializer ∘ decoder = `invert`.**  Index the analysed corpus through the
+modelled pipeline — `subscribe` into the per-term recorders (the arena byte stream of
+`serialize_vint_u32` VInts: doc-id deltas, term frequencies written when the next document of the
+term starts, `position + 1` values and the `POSITION_END` marker), iterate the term table in byte
+order, re-read each recorder's bytes with `read_u32_vint`, hand `write_doc(doc, tf, deltas)` to the
+postings / positions serializers, and read the bytes back with `WithFreqsAndPositions`.  Then:
+the table's keys are exactly the spec's terms; for every term `doc_freq` is the number of its
+documents and the postings read back are the spec's, as visible under the field's record option
+(multi-value position gap included); `total_num_tokens` and the per-document token counts (field
+norm = `fieldnorm_to_id` of them) are the spec's.  The arena hash map is a parameter (any finite
+map `Term → Option Rec`; sorted iteration is `termsOf`). -/
+theorem C07_invert_pipeline (o : RecOpt) (c : Corpus) (G : Recorder.GoodCorpus c) :
+    (∀ t, (Recorder.indexCorpus o c).table t ≠ none ↔ t ∈ (invert c).terms.map (·.1)) ∧
+    (∀ e ∈ (invert c).terms, ∃ r, (Recorder.indexCorpus o c).table e.1 = some r ∧
+      (Recorder.serializeTerm o r).docFreq = docFreq e.2 ∧
+      Recorder.readBack o (Recorder.serializeTerm o r) = some (e.2.map (project o))) ∧
+    (Recorder.indexCorpus o c).totalNumTokens = (invert c).totalNumTokens ∧
+    c.map (fun d => FieldNorm.fieldnormId (Recorder.docTokenCount o d)) = fieldnormIds (invert c) := by
+  have hmap : (invert c).terms.map (·.1) = termsOf Gen.Postings.POSITION_GAP c := by
+    simp [invert, invertWith, Function.comp_def]
+  refine ⟨fun t => by rw [hmap]; exact Recorder.table_keys o c t, ?_, Recorder.indexCorpus_total o c, ?_⟩
+  · intro e he
+    simp only [invert, invertWith, List.mem_map] at he
+    obtain ⟨t, ht, rfl⟩ := he
+    exact Recorder.pipeline_term o c G t ht
+  · simp only [fieldnormIds, invert, invertWith, List.map_map]
+    apply List.map_congr_left
+    intro d _
+    simp [Recorder.docTokenCount_eq]
+
+/-! ### recycled block cursor -/
+
+/-- **reset ≡ fresh open.** For every prior state `p` of a block cursor (any term read before,
+moved by any advances / seeks, drained or not), `reset(doc_freq, bytes)` yields — up to the
+frequency buffers — exactly the cursor `open(doc_freq, bytes)` yields, and so does every block
+read afterwards; in particular the skip reader is re-initialised like `SkipReader::new`
+(`last_doc_in_previous_block = 0`).  The extracted field lists of `SkipReader::new` / `reset` and
+`BlockSegmentPostings::reset` must show no field left out (the Lean `reset` mirrors the code only
+then). -/
+theorem C07_reset_equiv_open (c : Cfg) (o req : RecOpt) (p : BlockPostings) (docFreq : Nat)
+    (bytes : List Nat)
+    (hskip : p.skip.skipInfo = effectiveOpt c o docFreq (splitSkips c docFreq bytes).1)
+    (hfreq : p.freqOpt = freqOptOf (effectiveOpt c o docFreq (splitSkips c docFreq bytes).1) req) :
+    (p.reset c docFreq bytes).eraseTf = (BlockPostings.open c o req docFreq bytes).eraseTf ∧
+    (∀ fuel, (BlockPostings.drain c fuel (p.reset c docFreq bytes)).1 =
+      (BlockPostings.drain c fuel (BlockPostings.open c o req docFreq bytes)).1) ∧
+    (∀ (s : SkipReader) data, s.reset c data docFreq = SkipReader.new c data docFreq s.skipInfo) := by
+  have _tie : Gen.Postings.SKIPREADER_RESET_MISSING = 0 ∧ Gen.Postings.BLOCKPOSTINGS_RESET_MISSING = 0 := by
+    decide
+  have h := reset_eq_open c o req p docFreq bytes hskip hfreq
+  exact ⟨h, fun fuel => drain_docs_congr c fuel _ _ h, fun s data => SkipReader.reset_eq_new c s data docFreq⟩
+
 /-! ### TermInfoStore -/
 
 /-- **TermInfoStore round trip.** For every list of TermInfos whose ranges are ordered, below `2^56`
@@ -273,6 +329,18 @@ example : run cfg .positions (Cursor.init (chunkBlocks cfg .positions 0 [0, 3, 4
 example : (5 : Nat) < Gen.Postings.BITWIDTH_LIMIT ∧ encodeBitwidth 5 true = 69 := by decide
 example : (invert [[[⟨[97], 0, 1⟩, ⟨[98], 1, 1⟩], [⟨[97], 0, 1⟩]], [], [[⟨[98], 0, 1⟩]]]).terms =
     [([97], [⟨0, 2, [0, 3]⟩]), ([98], [⟨0, 1, [1]⟩, ⟨2, 1, [0]⟩])] := by decide
+example : ((BlockPostings.open cfg .basic .basic 3 [129, 132, 132]).advance cfg).skip.skipInfo =
+    effectiveOpt cfg .basic 2 (splitSkips cfg 2 [130, 133]).1 ∧
+    ((BlockPostings.open cfg .basic .basic 3 [129, 132, 132]).reset cfg 2 [130, 133]).docs = [2, 7] := by
+  decide
+example : Recorder.GoodCorpus [[[⟨[97], 0, 1⟩]], []] := by
+  refine ⟨by decide, ?_⟩
+  intro t p hp
+  by_cases h : ([97] : Term) = t
+  · subst h
+    simp [postingsOf, postingsFrom, docOccs, docOccsFrom, indexValue] at hp
+    subst hp; simp
+  · simp [postingsOf, postingsFrom, docOccs, docOccsFrom, indexValue, h] at hp
 example : 0 < TermInfoStore.BLOCK_LEN ∧ TermInfoStore.BLOCK_LEN = 256 := by decide
 theorem C07_terminfo_example_good :
     TermInfoStore.GoodStore 2 [⟨512, 51, 57, 110, 134⟩, ⟨3, 57, 60, 134, 134⟩, ⟨9, 70, 100, 140, 150⟩] := by
